@@ -1608,6 +1608,16 @@ class Interp:
             if a0 is not None:
                 return a0.with_(view=None)
             return UNKNOWN
+        if "out" in kwargs and kwargs["out"].kind == "val" and kwargs["out"].origin in fr.env:
+            # ufunc(..., out=x): the result is written into x
+            kw2 = {k: v for k, v in kwargs.items() if k != "out"}
+            res = self.external_call(name, args, kw2, fr, node, alld)
+            o = kwargs["out"]
+            new = AV(o.deps | res.deps, "val", None, sh.add(o.shape, res.shape), o.via | res.via, o.view, o.origin)
+            fr.env[o.origin] = new
+            if o.view:
+                self._record_view_write(o, res, fr, node, op="out=")
+            return new
         if root in ("np", "numpy", "math", "cmath", "sp", "scipy", "nb", "numba") or name in ("sqrt", "pi", "exp", "isnan", "array", "zeros", "ones", "hstack", "vstack", "real", "imag", "conj", "square", "deg2rad", "rad2deg", "cos", "sin", "arange", "nan_to_num", "isin", "where", "maximum", "minimum", "concatenate", "angle", "float64", "complex128", "int64", "any", "all", "diag", "absolute", "r_", "c_", "flatnonzero", "setdiff1d", "unique", "in1d", "nan", "inf", "ix_", "searchsorted", "full", "empty", "zeros_like", "ones_like", "logical_and", "logical_or", "invert", "bitwise_and", "bitwise_or", "copyto", "fill_diagonal", "put", "place", "putmask", "add.at", "tan", "arctan", "arctan2", "arccos", "arcsin", "log", "log10", "power", "multiply", "divide", "subtract", "add", "sign", "ceil", "floor", "round", "rint"):
             return self.numpy_call(short, name, args, kwargs, fr, node, alld, via)
         if root in ("pd", "pandas"):
